@@ -519,8 +519,12 @@ class World:
         m = self.procfs
         if m == "/proc" or not isinstance(path, str):
             return path
-        if path == m or path.startswith(m + "/"):
-            return "/proc" + path[len(m):]
+        mm = m.rstrip("/") or "/"
+        if path == m or path == mm or path.startswith(mm + "/"):
+            rest = path[len(mm):]
+            while rest.startswith("//"):
+                rest = rest[1:]            # (a mount point spelt with a trailing slash gives paths with a doubled one)
+            return "/proc" + (rest if rest != "/" else "")
         if path == "/proc" or path.startswith("/proc/"):
             return "/.nothing-mounted-on-proc" + path[5:]
         return path
